@@ -4,6 +4,7 @@ package main
 
 import (
 	"fmt"
+	"os"
 	"sort"
 	"strings"
 	"sync"
@@ -77,6 +78,7 @@ type pathState struct {
 	pcSize  int
 	sample  map[string]interface{}
 	sampleCand *Candidate
+	conc    map[int]uint64 // term ID -> value fixed by an earlier split on this path
 }
 
 type HarnessStats struct {
@@ -110,6 +112,9 @@ type Explorer struct {
 	maxCands   int
 	verbose    bool
 	trace      bool
+	profile    bool
+	dump       bool
+	sites      map[string]int
 	tier       int
 	sampleSeed int64
 	pathSeq    int64
@@ -194,6 +199,28 @@ func (ex *Explorer) worker(id int) {
 
 		ex.mu.Lock()
 		ex.active--
+		if ex.dump {
+			var sb strings.Builder
+			for _, d := range ps.trace {
+				switch d.Kind {
+				case "br":
+					f := ""
+					if d.Forced {
+						f = "!"
+					}
+					if d.B {
+						sb.WriteString("T" + f + " ")
+					} else {
+						sb.WriteString("F" + f + " ")
+					}
+				case "split":
+					fmt.Fprintf(&sb, "S%d%v ", d.V, d.Excl)
+				case "choice":
+					fmt.Fprintf(&sb, "[%s=%d] ", d.Label, d.V)
+				}
+			}
+			fmt.Fprintf(os.Stderr, "PATH %s: %s\n", out, sb.String())
+		}
 		st := &ex.stats
 		st.Paths++
 		st.Outcomes[out.String()]++
@@ -235,7 +262,7 @@ func (ex *Explorer) worker(id int) {
 		for _, a := range ps.alts {
 			ex.stack = append(ex.stack, a)
 		}
-		if st.Paths >= ex.maxPaths {
+		if st.Paths >= ex.maxPaths && !ex.stopped {
 			ex.stopped = true
 			st.BoundNotes = append(st.BoundNotes, fmt.Sprintf("path limit %d reached; %d prefixes unexplored", ex.maxPaths, len(ex.stack)))
 		}
@@ -303,6 +330,9 @@ func (i *interpreter) decide(cond *Term, label string) bool {
 		return d.B
 	}
 	ps.pos++
+	if ps.ex.profile {
+		ps.ex.noteSite(i, "br")
+	}
 	rT, _ := ps.solver.Check(tb, []*Term{cond}, nil)
 	ps.queries++
 	if rT == Unsat {
@@ -326,6 +356,9 @@ func (i *interpreter) decide(cond *Term, label string) bool {
 		ps.incon++
 	}
 	// both sides (possibly) feasible: take true now, schedule false
+	if ps.ex.profile {
+		ps.ex.noteSite(i, "FORK")
+	}
 	ps.fork(Decision{Kind: "br", B: false})
 	ps.record(Decision{Kind: "br", B: true})
 	i.assertPC(cond)
@@ -344,6 +377,14 @@ func (i *interpreter) concretize(v symInt, label string) value {
 		}
 		i.assertPC(tb.Cmp(OpEq, v.T, tb.Const(w, d.V)))
 		return mkConcInt(v.Kind, d.V)
+	}
+	if cv, ok := ps.eval(v.T, 0); ok {
+		return mkConcInt(v.Kind, cv)
+	}
+	takeInner := take
+	take = func(d Decision) value {
+		ps.learn(v.T, d.V)
+		return takeInner(d)
 	}
 	var excl []uint64
 	if ps.pos < len(ps.prefix) {
@@ -367,6 +408,9 @@ func (i *interpreter) concretize(v symInt, label string) value {
 	for _, e := range excl {
 		extra = append(extra, tb.BNot(tb.Cmp(OpEq, v.T, tb.Const(w, e))))
 	}
+	if ps.ex.profile {
+		ps.ex.noteSite(i, "split")
+	}
 	// need a model value for v.T: bind it to a fresh variable
 	probe := tb.Var(fmt.Sprintf("vp!probe%d", len(tb.terms)), w)
 	extra = append(extra, tb.Cmp(OpEq, probe, v.T))
@@ -382,7 +426,16 @@ func (i *interpreter) concretize(v symInt, label string) value {
 	val := model[probe.Name]
 	d := Decision{Kind: "split", V: val, Excl: excl, Label: label}
 	nx := append(append([]uint64(nil), excl...), val)
-	ps.fork(Decision{Kind: "split", Excl: nx, Open: true, Label: label})
+	// is there any further value?  (one query now saves a whole re-execution)
+	more := append(append([]*Term(nil), extra[:len(extra)-1]...), tb.BNot(tb.Cmp(OpEq, v.T, tb.Const(w, val))))
+	r2, _ := ps.solver.Check(tb, more, nil)
+	ps.queries++
+	if r2 != Unsat {
+		if ps.ex.profile {
+			ps.ex.noteSite(i, "FORKSPLIT "+label)
+		}
+		ps.fork(Decision{Kind: "split", Excl: nx, Open: true, Label: label})
+	}
 	ps.record(d)
 	return take(d)
 }
@@ -460,6 +513,9 @@ func (i *interpreter) checkAssert(c value, label string) {
 			i.addCandidate("assert", label, "", nil)
 		}
 	case symBool:
+		if ps.ex.profile {
+			ps.ex.noteSite(i, "assert "+label)
+		}
 		neg := i.tb.BNot(x.T)
 		r, m := i.model([]*Term{neg})
 		switch r {
@@ -513,4 +569,131 @@ func shortFn(s string) string {
 	s = strings.TrimPrefix(s, "github.com/blugelabs/ice/v2.")
 	s = strings.Replace(s, "github.com/blugelabs/ice/v2.", "", -1)
 	return s
+}
+
+func (ex *Explorer) noteSite(i *interpreter, kind string) {
+	site := kind + " <none>"
+	if fr := i.top; fr != nil {
+		line := 0
+		if fr.cur != nil {
+			line = i.prog.Fset.Position(fr.cur.Pos()).Line
+		}
+		site = fmt.Sprintf("%s %s:%d", kind, shortFn(fr.fn.String()), line)
+	}
+	ex.mu.Lock()
+	if ex.sites == nil {
+		ex.sites = map[string]int{}
+	}
+	ex.sites[site]++
+	ex.mu.Unlock()
+}
+
+// learn records that term t has value v on this path and propagates the fact
+// down through invertible operations to the variables.
+func (ps *pathState) learn(t *Term, v uint64) {
+	for depth := 0; depth < 16; depth++ {
+		ps.conc[t.ID] = v & mask(t.W)
+		switch t.Op {
+		case OpAdd:
+			if t.Args[1].Op == OpConst {
+				v = (v - t.Args[1].A) & mask(t.W)
+				t = t.Args[0]
+				continue
+			}
+		case OpSub:
+			if t.Args[1].Op == OpConst {
+				v = (v + t.Args[1].A) & mask(t.W)
+				t = t.Args[0]
+				continue
+			}
+		case OpZExt:
+			if v <= mask(t.Args[0].W) {
+				t = t.Args[0]
+				continue
+			}
+		case OpExtract:
+			if t.B == 0 && t.Args[0].W <= 64 && t.Args[0].Hi <= mask(t.W) {
+				t = t.Args[0]
+				continue
+			}
+		}
+		return
+	}
+}
+
+// eval computes the value of t from facts learnt earlier on this path.
+func (ps *pathState) eval(t *Term, depth int) (uint64, bool) {
+	if t.Op == OpConst {
+		return t.A, true
+	}
+	if v, ok := ps.conc[t.ID]; ok {
+		return v, true
+	}
+	if depth > 12 || t.W == 0 || t.W > 64 || len(ps.conc) == 0 {
+		return 0, false
+	}
+	m := mask(t.W)
+	var a, b uint64
+	var ok bool
+	if len(t.Args) >= 1 {
+		if a, ok = ps.eval(t.Args[0], depth+1); !ok {
+			return 0, false
+		}
+	}
+	if len(t.Args) >= 2 {
+		if t.Args[1].W == 0 {
+			return 0, false
+		}
+		if b, ok = ps.eval(t.Args[1], depth+1); !ok {
+			return 0, false
+		}
+	}
+	var r uint64
+	switch t.Op {
+	case OpAdd:
+		r = a + b
+	case OpSub:
+		r = a - b
+	case OpMul:
+		r = a * b
+	case OpAnd:
+		r = a & b
+	case OpOr:
+		r = a | b
+	case OpXor:
+		r = a ^ b
+	case OpShl:
+		if b >= uint64(t.W) {
+			r = 0
+		} else {
+			r = a << b
+		}
+	case OpLShr:
+		if b >= uint64(t.W) {
+			r = 0
+		} else {
+			r = a >> b
+		}
+	case OpUDiv:
+		if b == 0 {
+			return 0, false
+		}
+		r = a / b
+	case OpURem:
+		if b == 0 {
+			return 0, false
+		}
+		r = a % b
+	case OpZExt:
+		r = a
+	case OpExtract:
+		r = a >> t.B
+	case OpNot:
+		r = ^a
+	default:
+		return 0, false
+	}
+	r &= m
+	ps.conc[t.ID] = r
+	return r, true
 }
